@@ -534,8 +534,14 @@ def _mechanism_acceptance(ctx, mechs):
                 if mname == 'DBUS_COOKIE_SHA1':
                     ev_ok = False
                     for cnd, pol in p.cond:
-                        if kind(cnd) == 'cmp' and cnd[1] == '==' and pol:
-                            sides = (cnd[2], cnd[3])
+                        is_eq = kind(cnd) == 'cmp' and cnd[1] == '=='
+                        # hmac.compare_digest(a, b): equality in constant time
+                        is_cd = kind(cnd) == 'call' and str(
+                            cnd[1] or '').endswith('compare_digest') and \
+                            len(cnd[3]) == 2
+                        if (is_eq or is_cd) and pol:
+                            sides = (cnd[2], cnd[3]) if is_eq else \
+                                tuple(cnd[3])
                             comp = [s_ for s_ in sides if contains(
                                 s_, lambda x: kind(x) == 'call' and
                                 (x[1] or '').startswith('hashlib.')) and
